@@ -552,6 +552,32 @@ def oracle_system(sp, q, p):
         else:
             continue
         break
+    # ... and "on arbitrary states" includes states that were moved: evaluate everything at another point,
+    # assign the position only (the momentum only), evaluate again - the values must be those of the CURRENT
+    # variables (a method whose declared cache dependencies miss a variable it reads fails here: seed C05-3)
+    if not bad:
+        q0 = q + 0.375 * (1.0 + np.arange(n) % 2)
+        p0 = 0.5 * p - 0.25
+        mv = ChainState(pos=q0.copy(), mom=p0.copy(), dir=1)
+        for m in METHODS:
+            getattr(system, m)(mv)
+        for what, qq, pp in (("pos", q, p0), ("mom", q, p)):
+            if what == "pos":
+                mv.pos = q.copy()
+            else:
+                mv.mom = p.copy()
+            ref_all = eval_methods(system, qq, pp)
+            for m in METHODS:
+                w = getattr(system, m)(mv)
+                w = float(w) if m in ("h1", "h2", "h") else np.array(w, dtype=float)
+                ref = ref_all[m]
+                if float(np.max(np.abs(w - ref))) > 1e-12 * (1 + float(np.max(np.abs(ref)))):
+                    bad.append((f"{cls}.{m} after assigning {what}",
+                                f"{cls}.{m} on a state whose {what} was assigned after a first evaluation = "
+                                f"{np.asarray(w).tolist()} but the value at the current variables is {np.asarray(ref).tolist()}"))
+                    break
+            if bad:
+                break
     h1d, h2d = r.h_doc(q, p)
     if not common.close(v["h1"], h1d, 1e-8, 1e-9):
         bad.append((f"{cls}.h1", f"h1 = {v['h1']} but documented formula gives {h1d}"))
